@@ -16,6 +16,7 @@
 //@harness name=tier_independence_i64 kind=complete tier=quick timeout=900
 //@harness name=tier_independence_f64 kind=complete tier=quick timeout=900
 //@harness name=tier_independence_in_f64 kind=bounded bound="IN list of 1 literal (HashSet<i64> with the hasher stubbed to fixed keys)" tier=thorough timeout=1800 stubs=yes gate=yes
+//@harness name=string_condition_eq_neq kind=bounded bound="cell and literal of exactly 2 symbolic ASCII bytes" tier=quick timeout=900
 //@harness name=logical_connectives kind=complete tier=quick timeout=900
 //@obligation C02.conditions.evaluate_scalar.is_comparison : for all lhs, literal and the six comparison operators the result is `lhs op literal` in Z
 //@obligation C02.conditions.evaluate_at.i64_cell : an i64 cell is selected iff `cell op literal` holds
@@ -24,6 +25,7 @@
 //@obligation C02.conditions.tier_independence.i64 : in-memory evaluation (evaluate_event_direct on the event payload) equals on-disk evaluation (evaluate_at on the column cell) for integer values
 //@obligation C02.conditions.tier_independence.f64 : same for float values
 //@obligation C02.conditions.tier_independence.in_f64 : IN over a float value answers the same in memory and on disk [bounded, gate]
+//@obligation C02.conditions.string.eq_neq : `=` / `!=` on a string cell select exactly the rows whose cell equals / differs from the literal (on-disk evaluator; the in-memory string path did not finish in 600 s and is not decided) [bounded]
 //@obligation C02.conditions.logical.and_or_not : And / Or / Not over leaf conditions equal the boolean connectives of the leaves' answers
 
     use crate::engine::core::Event;
@@ -177,4 +179,29 @@
         let disk = c.evaluate_at(&OneCell { kind: 2, u: 0, i: 0, f: cell }, 0);
         kani::cover!(disk, "COVER:selected_on_disk");
         assert!(mem == disk, "OBL:C02.conditions.tier_independence.in_f64");
+    }
+
+    struct StrCell<'a>(&'a str);
+    impl<'a> FieldAccessor for StrCell<'a> {
+        fn get_str_at(&self, _field: &str, _index: usize) -> Option<&str> { Some(self.0) }
+        fn get_i64_at(&self, _field: &str, _index: usize) -> Option<i64> { None }
+        fn get_u64_at(&self, _field: &str, _index: usize) -> Option<u64> { None }
+        fn get_f64_at(&self, _field: &str, _index: usize) -> Option<f64> { None }
+        fn event_count(&self) -> usize { 1 }
+    }
+
+    #[kani::proof]
+    #[kani::unwind(5)]
+    fn string_condition_eq_neq() {
+        let (c, v): ([u8; 2], [u8; 2]) = (kani::any(), kani::any());
+        kani::assume(c[0] < 0x80 && c[1] < 0x80 && v[0] < 0x80 && v[1] < 0x80);
+        let neq: bool = kani::any();
+        let cell = unsafe { String::from_utf8_unchecked(c.to_vec()) };
+        let lit = unsafe { String::from_utf8_unchecked(v.to_vec()) };
+        let cond = std::mem::ManuallyDrop::new(StringCondition::new(String::from("x"), if neq { CompareOp::Neq } else { CompareOp::Eq }, lit));
+        let disk = cond.evaluate_at(&StrCell(cell.as_str()), 0);
+        std::mem::forget(cell);
+        kani::cover!(c == v, "COVER:equal");
+        kani::cover!(c != v && neq, "COVER:differs");
+        assert!(disk == ((c == v) != neq), "OBL:C02.conditions.string.eq_neq");
     }
